@@ -78,6 +78,8 @@ type Gen struct {
 	Tried    map[string]int
 	Accepted map[string]int
 	// Names of pillars registered by the run
+	// BigData makes every other transfer carry 6-16 KiB of data
+	BigData     bool
 	PillarNames []string
 	Preimages   map[types.Hash][]byte // htlc id -> preimage
 	Owner       map[types.Hash]types.Address
@@ -431,6 +433,11 @@ func (gn *Gen) Transfer(n *simnode.Node) (*nom.AccountBlock, error) {
 	var data []byte
 	if t.Choose(5) == 0 {
 		data = t.Bytes(t.Choose(200))
+	}
+	if gn.BigData && t.Choose(2) == 0 {
+		// up to the protocol's maximum of 16 KiB of data (one tape draw: the content does not matter)
+		data = bytes.Repeat([]byte{byte(t.Choose(256))}, constants.MaxDataLength-t.Choose(3)*5000)
+		gn.W.R.Probe("transfer-with-big-data")
 	}
 	b, _, err := gn.submitCall(n, "transfer", from, to, z, amt, data)
 	return b, err
